@@ -183,19 +183,33 @@ fn positions(s: &Store, acct: &Pubkey) -> Vec<(Pubkey, i128, i128)> {
 
 /// rules every committed receivership must satisfy, from reference valuations of pre and post state
 fn semantic_rules(sc: &Sc, pre: &Store, post: &Store, acct: &Pubkey, out: &mut Vec<(String, String)>) {
+    // Both states are valued at share values brought up to date by the real accrue instruction on a copy: interest
+    // that was due when the bracket started is part of what the account owned and owed at the start (a no-op for
+    // banks that are up to date, which is every bank of every scene without a clock advance).
+    let up_to_date = |s: &Store| -> Store {
+        let mut t = s.clone();
+        for b in 0..sc.w.banks.len() {
+            let _ = act::apply(&sc.w, &mut t, &Action::Accrue { b });
+        }
+        t
+    };
+    // (eligibility is judged on the stored share values the start instruction can see)
+    let m0_stored = health::health(pre, acct, Req::Maintenance).unwrap();
+    let m1_stored = health::health(post, acct, Req::Maintenance).unwrap();
+    let (pre, post) = (&up_to_date(pre), &up_to_date(post));
     let (m0, m1) = (health::health(pre, acct, Req::Maintenance).unwrap(), health::health(post, acct, Req::Maintenance).unwrap());
     let (e0, e1) = (health::health(pre, acct, Req::Equity).unwrap(), health::health(post, acct, Req::Equity).unwrap());
     let tol = m0.allow.clone() + m1.allow.clone() + e0.allow.clone() + e1.allow.clone() + rf::qfrac(1, 1_000_000_000);
-    if m0.health() > tol.clone() {
-        out.push(("only_unhealthy_accounts".into(), format!("control was taken of an account with maintenance health {:.9} > 0", rf::qf64(&m0.health()))));
+    if m0_stored.health() > tol.clone() + m0_stored.allow.clone() {
+        out.push(("only_unhealthy_accounts".into(), format!("control was taken of an account with maintenance health {:.9} > 0", rf::qf64(&m0_stored.health()))));
     }
     if m1.health() < m0.health() - tol.clone() {
         out.push(("health_not_worse".into(), format!("maintenance health went {:.9} -> {:.9}", rf::qf64(&m0.health()), rf::qf64(&m1.health()))));
     }
     let tiny = e0.assets < rf::qi(5);
     if !tiny {
-        if m1.health() > tol.clone() {
-            out.push(("health_not_positive".into(), format!("maintenance health ended at {:.9} > 0 (assets were worth {:.4})", rf::qf64(&m1.health()), rf::qf64(&e0.assets))));
+        if m1_stored.health() > tol.clone() + m1_stored.allow.clone() {
+            out.push(("health_not_positive".into(), format!("maintenance health ended at {:.9} > 0 (assets were worth {:.4})", rf::qf64(&m1_stored.health()), rf::qf64(&e0.assets))));
         }
         let seized = e0.assets.clone() - e1.assets.clone();
         let repaid = e0.liabs.clone() - e1.liabs.clone();
@@ -329,7 +343,7 @@ pub fn shapes(alpha: &[Sym], max_len: usize) -> Vec<Vec<Sym>> {
 fn grid(tier: Tier, classes: &mut BTreeMap<String, u64>, found: &mut Vec<Found>) -> u64 {
     let mut cells = 0u64;
     // (collateral $, debt $): standard; assets >= $5 but net equity < $5; assets just under / over $5
-    let portfolios: Vec<(&str, f64, f64)> = vec![("std", 1000.0, 860.0), ("thin_equity", 100.0, 96.0), ("assets_4.99", 4.99, 4.5), ("assets_5.01", 5.01, 4.5), ("deep", 1000.0, 2000.0), ("std_reduce_only", 1000.0, 860.0), ("std_debt_bank_tokenless", 1000.0, 860.0), ("assets_4.99_debt_bank_tokenless", 4.99, 4.5)];
+    let portfolios: Vec<(&str, f64, f64)> = vec![("std", 1000.0, 860.0), ("thin_equity", 100.0, 96.0), ("assets_4.99", 4.99, 4.5), ("assets_5.01", 5.01, 4.5), ("deep", 1000.0, 2000.0), ("std_reduce_only", 1000.0, 860.0), ("std_stale_banks", 1000.0, 860.0), ("std_debt_bank_tokenless", 1000.0, 860.0), ("assets_4.99_debt_bank_tokenless", 4.99, 4.5)];
     let fees: Vec<f64> = if tier == Tier::Quick { vec![0.0, 0.10] } else { vec![0.0, 0.05, 0.10, 0.25] };
     for (fi, fee) in fees.iter().enumerate() {
         for (pi, (pname, coll, debt)) in portfolios.iter().enumerate() {
@@ -339,6 +353,17 @@ fn grid(tier: Tier, classes: &mut BTreeMap<String, u64>, found: &mut Vec<Found>)
                 // collateral still counts in full for maintenance health and for the seized-vs-repaid comparison
                 let k = sc.w.banks[0].key;
                 crate::world::edit_bank(&mut sc.s, &k, |b| b.config.operational_state = marginfi_type_crate::types::BankOperationalState::ReduceOnly);
+            }
+            if pname.ends_with("stale_banks") {
+                // the collateral bank is lent out heavily (another user borrows 85 % of it against a deposit in the debt
+                // bank) and then nobody touches either bank for 180 days; only the oracles are cranked. The position's
+                // share of the interest due is part of what the account owns when a third party takes control
+                for a in [Action::Deposit { u: 4, b: 1, amt: 100_000_000_000_000, up_to_limit: None }, Action::Borrow { u: 4, b: 0, amt: 850_000_000_000 }] {
+                    let r = act::apply(&sc.w, &mut sc.s, &a);
+                    assert!(r.committed, "C10 stale scene {:?}: {}", a, crate::svm::err_name(r.code));
+                }
+                sc.s.advance(180 * 86_400);
+                world::refresh_oracles(&mut sc.s, &sc.w);
             }
             if pname.ends_with("tokenless") {
                 // the debt bank is being wound down: reduce-only and flagged for the risk admin's token-less repayments
